@@ -546,8 +546,11 @@ func (c *Client) Do(req *Request, resp *Response) error {
 	}
 
 	c.mOnce.Do(func() {
+		// CloseIdleConnections and ConnsCount read the maps under mLock.
+		c.mLock.Lock()
 		c.m = make(map[string]*HostClient)
 		c.ms = make(map[string]*HostClient)
+		c.mLock.Unlock()
 	})
 	hc, err := c.hostClient(host, isTLS)
 	if err != nil {
